@@ -777,7 +777,7 @@ func respellCorpus(t *rapid.T, src string) (string, int, int, bool) {
 	for _, tk := range toks {
 		gapEmpty := len(tk.Comments) == 0 && tk.Space == ""
 		if !gapEmpty {
-			g := rapid.SampledFrom([]string{" ", "\n", "\t", "  ", " /* c */ ", "\n-- c\n", " # c\n", " // ;\n ", " /* ' */ "}).Draw(t, "gap")
+			g := rapid.SampledFrom([]string{" ", "\n", "\t", "  ", " /* c */ ", "\n-- c\n", " # c\n", " // ;\n ", " /* ' */ ", " /**/", " --\n", " #\n", " /*/*/", " /* * */"}).Draw(t, "gap")
 			if strings.ContainsAny(g, "/#-") {
 				comments++
 			}
@@ -802,6 +802,11 @@ func respellCorpus(t *rapid.T, src string) (string, int, int, bool) {
 		default:
 			b.WriteString(tk.Raw)
 		}
+	}
+	// the gap before <eof>: a line comment that runs to the end of the input (bodies down to the empty one)
+	if tail := rapid.SampledFrom([]string{"", "", "", " #", " --", " //", "\n# c", " -- c ;", " /**/", "\n--"}).Draw(t, "tail"); tail != "" {
+		b.WriteString(tail)
+		comments++
 	}
 	return b.String(), cased, comments, true
 }
